@@ -44,6 +44,13 @@ Theorem C06_rows_are_exactly_the_parsed_lines : forall d c s,
 Proof. exact batch_rows_exact. Qed.
 Print Assumptions C06_rows_are_exactly_the_parsed_lines.
 
+(* the block reader may cut a request body at any newline: the rows of the body are the rows of the first block
+   (newline-terminated) followed by the rows of the rest - every line is delivered exactly once, in order *)
+Theorem C06_rows_independent_of_block_cut : forall d c a b,
+  fst (parse_batch d c (a ++ c_nl :: b)) = fst (parse_batch d c (a ++ [c_nl])) ++ fst (parse_batch d c b).
+Proof. exact rows_cut_at_newline. Qed.
+Print Assumptions C06_rows_independent_of_block_cut.
+
 (* int_exact_iff: the int64 -> float64 -> int64 passage today's code applies to every integer field returns the
    integer written iff it is a 53-bit mantissa times a power of two (so: every |n| <= 2^53, and beyond that only the
    multiples of the matching power of two) *)
